@@ -173,6 +173,7 @@ def evalE (o : Oracles) (env : Env) (r : Row) : Expr → Val
     | "intDiv", [.int x, .int y] => if y = 0 then .null else .int (Int.tdiv x y)
     | "toFloat64", [v] => match v.toRat? with | some q => .rat q | none => .null
     | "toFloat64OrZero", [.str s] => .rat (o.toFloat s)
+    | "toFloat64OrZero", [.null] => .rat 0     -- an absent column of an unmatched ANY LEFT JOIN row has its type's default ('' / {})
     | "cityHash64", [.map m] => .int (o.cityHash m)
     | "length", [.str s] => .int s.length
     | _, _ => .null
@@ -188,6 +189,7 @@ def evalE (o : Oracles) (env : Env) (r : Row) : Expr → Val
   | .tupleAt name i => r.get (name ++ "." ++ toString i)
   | .topkSlice _ _ _ => .null        -- an aggregate: only meaningful per group (`Sql.SemAgg`)
   | .arrayJoinFrom _ _ => .null      -- a FROM clause (`Sql.SemAgg.sourceRowsA`)
+  | .fixedLit units scale => .rat ((units : Int) / ((10 ^ scale : Nat) : Int))   -- the number the literal denotes
 def evalEs (o : Oracles) (env : Env) (r : Row) : List Expr → List Val
   | [] => []
   | e :: es => evalE o env r e :: evalEs o env r es
